@@ -27,11 +27,27 @@ impl Approx {
             e: e + (v.abs() + e) * U + TINY,
         }
     }
+    /// A sum or difference of two exactly known f32 values whose (f64-rounded) result is itself an
+    /// f32 value is computed without error by any IEEE implementation: if the f64 rounding of the
+    /// true result lies on the coarser f32 grid, the f32 rounding of the true result is that same
+    /// point. Cancellation (Sterbenz) is the case that matters: a difference of neighbouring floats
+    /// must not be given an uncertainty as large as itself.
+    fn exact_result(v: f64) -> bool {
+        v.is_finite() && (v as f32) as f64 == v && (v == 0.0 || v.abs() >= f32::MIN_POSITIVE as f64)
+    }
     pub fn add(self, o: Approx) -> Approx {
-        Self::round(self.v + o.v, self.e + o.e)
+        let v = self.v + o.v;
+        if self.e == 0.0 && o.e == 0.0 && Self::exact_result(v) {
+            return Approx { v, e: 0.0 };
+        }
+        Self::round(v, self.e + o.e)
     }
     pub fn sub(self, o: Approx) -> Approx {
-        Self::round(self.v - o.v, self.e + o.e)
+        let v = self.v - o.v;
+        if self.e == 0.0 && o.e == 0.0 && Self::exact_result(v) {
+            return Approx { v, e: 0.0 };
+        }
+        Self::round(v, self.e + o.e)
     }
     pub fn mul(self, o: Approx) -> Approx {
         Self::round(
